@@ -68,6 +68,11 @@ pub struct Mon {
     pub sd_committed: Vec<SdEvent>,
     /// number of opcode-0xff executions that did not complete
     pub sd_failed: u64,
+    /// C10: snapshot the world when a static region is entered and compare when it is left
+    pub check_static: bool,
+    pub static_snaps: Vec<(usize, StateProj)>,
+    pub static_violations: Vec<(String, String)>,
+    pub static_regions: u64,
     pub record_steps: bool,
     pub steps: Vec<Step>,
     pub max_steps: usize,
@@ -83,6 +88,63 @@ impl Mon {
         Mon { record_steps, max_steps: 200_000, ..Default::default() }
     }
 }
+/// World-state projection that ignores access status (warm/cold, touched).
+pub type StateProj = (Vec<(Address, U256, u64, revm::primitives::B256, bool, bool, Vec<(U256, U256)>)>, Vec<((Address, U256), U256)>, usize);
+pub fn project_state(js: &revm::JournaledState) -> StateProj {
+    let mut accs: Vec<_> = js
+        .state
+        .iter()
+        .map(|(a, acc)| {
+            let mut st: Vec<(U256, U256)> = acc.storage.iter().map(|(k, v)| (*k, v.present_value)).collect();
+            st.sort();
+            (*a, acc.info.balance, acc.info.nonce, acc.info.code_hash, acc.is_created(), acc.is_selfdestructed(), st)
+        })
+        .collect();
+    accs.sort();
+    let mut t: Vec<_> = js.transient_storage.iter().filter(|(_, v)| !v.is_zero()).map(|(k, v)| (*k, *v)).collect();
+    t.sort();
+    (accs, t, js.logs.len())
+}
+/// Compare a snapshot taken when the static region started with the state when it ended. Accounts and
+/// slots that were only loaded in between must still hold their loaded (original) values.
+fn compare_static(before: &StateProj, js: &revm::JournaledState) -> Option<String> {
+    let after = project_state(js);
+    if before.1 != after.1 {
+        return Some(format!("transient storage changed: {:?} -> {:?}", before.1, after.1));
+    }
+    if before.2 != after.2 {
+        return Some(format!("logs changed: {} -> {}", before.2, after.2));
+    }
+    for a in &after.0 {
+        match before.0.iter().find(|b| b.0 == a.0) {
+            Some(b) => {
+                if (b.1, b.2, b.3, b.4, b.5) != (a.1, a.2, a.3, a.4, a.5) {
+                    return Some(format!("account {} changed: {:?} -> {:?}", a.0, (b.1, b.2, b.3, b.4, b.5), (a.1, a.2, a.3, a.4, a.5)));
+                }
+                for (k, v) in &a.6 {
+                    match b.6.iter().find(|x| x.0 == *k) {
+                        Some((_, bv)) if bv != v => return Some(format!("storage {}[{k}] changed: {bv} -> {v}", a.0)),
+                        Some(_) => {}
+                        None => {
+                            let orig = js.state[&a.0].storage[k].original_value;
+                            if orig != *v {
+                                return Some(format!("storage {}[{k}] loaded as {orig} and left as {v}", a.0));
+                            }
+                        }
+                    }
+                }
+            }
+            None => {
+                let acc = &js.state[&a.0];
+                if acc.is_created() || acc.is_selfdestructed() || acc.storage.values().any(|s| s.present_value != s.original_value) {
+                    return Some(format!("account {} was first loaded inside the static call and modified", a.0));
+                }
+            }
+        }
+    }
+    None
+}
+
 pub trait HasMon {
     fn mon(&mut self) -> &mut Mon;
 }
@@ -197,8 +259,27 @@ pub fn monitor_register<EXT: HasMon, DB: Database>(h: &mut EvmHandler<'_, EXT, D
             target: inputs.target_address,
             scheme: format!("{:?}", inputs.scheme),
         };
+        let want_static_check = {
+            let m = ctx.external.mon();
+            let parent_static = m.open.last().map(|i| m.attempts[*i].is_static).unwrap_or(false);
+            if m.check_static && parent_static && !inputs.is_static {
+                m.static_violations.push(("static-not-inherited".into(), format!("{:?} to {} issued inside a static frame is not static", inputs.scheme, inputs.target_address)));
+            }
+            m.check_static && inputs.is_static && !parent_static
+        };
+        let snap = if want_static_check { Some(project_state(&ctx.evm.journaled_state)) } else { None };
         let r = old(ctx, inputs);
         finish_attempt(ctx, att, &r);
+        if let Some(sn) = snap {
+            if matches!(r, Ok(FrameOrResult::Frame(_))) {
+                let m = ctx.external.mon();
+                let idx = m.attempts.len() - 1;
+                m.static_snaps.push((idx, sn));
+                m.static_regions += 1;
+            } else if let Some(d) = compare_static(&sn, &ctx.evm.journaled_state) {
+                ctx.external.mon().static_violations.push(("static-call-changed-state".into(), d));
+            }
+        }
         r
     });
     let old = h.execution.create.clone();
@@ -282,6 +363,17 @@ fn finish_attempt<EXT: HasMon, DB: Database, E>(ctx: &mut Context<EXT, DB>, mut 
 }
 fn close_frame<EXT: HasMon, DB: Database>(ctx: &mut Context<EXT, DB>, res: InstructionResult) {
     let d = ctx.evm.journaled_state.depth();
+    {
+        let top = ctx.external.mon().open.last().copied();
+        if let Some(idx) = top {
+            if ctx.external.mon().static_snaps.last().map(|(i, _)| *i == idx).unwrap_or(false) {
+                let (_, sn) = ctx.external.mon().static_snaps.pop().unwrap();
+                if let Some(dsc) = compare_static(&sn, &ctx.evm.journaled_state) {
+                    ctx.external.mon().static_violations.push(("static-call-changed-state".into(), dsc));
+                }
+            }
+        }
+    }
     let m = ctx.external.mon();
     if let Some(idx) = m.open.pop() {
         m.attempts[idx].depth_after = Some(d);
